@@ -74,6 +74,8 @@ struct Truth {
     always_unprepared: AtomicBool,
     /// per op (pk): what happened at the nodes
     seen: Mutex<HashMap<i64, Vec<Seen>>>,
+    /// (pk, version): ROWS answers that carried a new result-metadata id (announcements actually made)
+    announcements: Mutex<Vec<(i64, usize)>>,
 }
 
 #[derive(Debug, Clone)]
@@ -129,7 +131,7 @@ impl Handler for H14 {
             d.bind = vec![ColSpec::new("ks", "t", "pk", ColType::BigInt)];
             d.pk_indexes = vec![0];
             d.result = cols(v);
-            d.result_metadata_id = if self.t.ext { Some(metadata_id(v)) } else { None };
+            d.result_metadata_id = if self.t.ext && node.spec.read().unwrap().features.metadata_id { Some(metadata_id(v)) } else { None };
             Some(d)
         } else if query == INS {
             // (an id change on a node hits this statement as well: batches meet it through their first statement)
@@ -240,8 +242,10 @@ impl Handler for H14 {
                 let rows: Vec<Row> = rows.iter().map(|r| lay.iter().map(|(n, _)| Some(cell(n, pk, *r))).collect()).collect();
                 let mut md = ResultMetadata { columns: cols(v), paging_state: ps, no_metadata: false, global_spec: true, new_metadata_id: None };
                 if params.skip_metadata {
-                    if self.t.ext && result_metadata_id.as_deref() != Some(&metadata_id(v)[..]) {
+                    let conn_ext = rq.conn.ext.lock().unwrap().metadata_id;
+                    if self.t.ext && conn_ext && result_metadata_id.as_deref() != Some(&metadata_id(v)[..]) {
                         md.new_metadata_id = Some(metadata_id(v));
+                        self.t.announcements.lock().unwrap().push((pk, v));
                     } else {
                         md.no_metadata = true;
                     }
@@ -310,6 +314,8 @@ enum Step {
 
 #[derive(Clone, Debug)]
 struct Hist {
+    /// with `ext`: node 0 does NOT speak the metadata-id extension, nodes 1 and 2 do (a cluster being upgraded)
+    mixed: bool,
     ext: bool,
     use_cached: bool,
     steps: Vec<Step>,
@@ -345,6 +351,7 @@ fn decode(rows_result: scylla::response::query_result::QueryRowsResult) -> Resul
 struct HistOut {
     ops: Vec<OpResult>,
     seen: HashMap<i64, Vec<Seen>>,
+    announcements: Vec<(i64, usize)>,
     /// (seq, version) of every metadata id announced to the client in a PREPARED or ROWS response
     log: Arc<crate::mock::log::EventLog>,
     violations: Vec<String>,
@@ -352,7 +359,7 @@ struct HistOut {
 }
 
 async fn run_hist(h: &Hist) -> HistOut {
-    let truth = Arc::new(Truth { version: AtomicUsize::new(0), ext: h.ext, id_changed: Mutex::new(vec![false; 3]), always_unprepared: AtomicBool::new(false), seen: Mutex::new(HashMap::new()) });
+    let truth = Arc::new(Truth { version: AtomicUsize::new(0), ext: h.ext, id_changed: Mutex::new(vec![false; 3]), always_unprepared: AtomicBool::new(false), seen: Mutex::new(HashMap::new()), announcements: Mutex::new(vec![]) });
     let handler = Arc::new(H14 { t: truth.clone() });
     let feat = Features { metadata_id: h.ext, ..Default::default() };
     let mk = |rack: &str, tok: i64| NodeSpec { dc: Some("dc1".into()), rack: Some(rack.into()), tokens: vec![tok], sharding: None, features: feat };
@@ -361,9 +368,13 @@ async fn run_hist(h: &Hist) -> HistOut {
         keyspaces: vec![KeyspaceDef::simple("ks", 3).with_table(TableDef::new("t", &[("pk", "bigint")], &[("a", "int"), ("b", "text")]))],
         cluster_name: "c14".into(),
     };
+    let mut spec = spec;
+    if h.mixed {
+        spec.nodes[0].features.metadata_id = false;
+    }
     let cluster = MockCluster::start(spec, handler).await;
     let log = cluster.log().clone();
-    let mut out = HistOut { ops: vec![], seen: HashMap::new(), log: log.clone(), violations: vec![], build_error: None };
+    let mut out = HistOut { ops: vec![], seen: HashMap::new(), announcements: vec![], log: log.clone(), violations: vec![], build_error: None };
     // no retries: an error answer must surface as it is (re-preparation is not a retry)
     let profile = ExecutionProfile::builder().retry_policy(Arc::new(FallthroughRetryPolicy::new())).request_timeout(None).build();
     let with_generator = h.seed % 2 == 0;
@@ -538,6 +549,7 @@ async fn run_hist(h: &Hist) -> HistOut {
     }
     out.ops = results.lock().unwrap().clone();
     out.seen = truth.seen.lock().unwrap().clone();
+    out.announcements = truth.announcements.lock().unwrap().clone();
     out.violations = log.violations();
     drop(caching);
     cluster.shutdown();
@@ -545,13 +557,13 @@ async fn run_hist(h: &Hist) -> HistOut {
 }
 
 fn judge(o: &mut Outcome, h: &Hist, r: &HistOut) {
-    let replay_base = json!({"ext": h.ext, "use_cached": h.use_cached, "endless": h.endless_unprepared, "seed": h.seed, "steps": h.steps.iter().map(|s| format!("{s:?}")).collect::<Vec<_>>()});
+    let replay_base = json!({"mixed": h.mixed, "ext": h.ext, "use_cached": h.use_cached, "endless": h.endless_unprepared, "seed": h.seed, "steps": h.steps.iter().map(|s| format!("{s:?}")).collect::<Vec<_>>()});
     if let Some(e) = &r.build_error {
         o.inconclusive(format!("history could not start: {e}"));
         return;
     }
     o.case(fw::hash64(format!("{:?}{}{}{}", h.steps, h.ext, h.use_cached, h.endless_unprepared).as_bytes()), h.steps.len() > 2);
-    o.class(if h.ext { "ext:metadata-id" } else { "ext:none" });
+    o.class(if h.mixed { "ext:metadata-id-on-two-of-three-nodes" } else if h.ext { "ext:metadata-id" } else { "ext:none" });
     o.class(if h.use_cached { "skip-metadata:on" } else { "skip-metadata:off" });
     for s in &h.steps {
         o.class(&format!("step:{}", format!("{s:?}").split('(').next().unwrap()));
@@ -685,8 +697,37 @@ fn judge(o: &mut Outcome, h: &Hist, r: &HistOut) {
             }
         }
     }
+    // mixed cluster: an id that a node ANNOUNCED (together with the metadata) to an execution that has returned is
+    // what the next execution presents on a connection that speaks the extension
+    if h.mixed {
+        let mut told: Vec<(u64, usize)> = Vec::new(); // (ret_seq of the op that was told, version)
+        for op in &r.ops {
+            if op.api == "caching_execute_unpaged" || op.outcome.is_err() {
+                continue;
+            }
+            if let Some(v) = r.announcements.iter().filter(|(pk, _)| *pk == op.pk).map(|(_, v)| *v).max() {
+                told.push((op.ret_seq, v));
+            }
+        }
+        for op in &r.ops {
+            if op.api == "caching_execute_unpaged" {
+                continue;
+            }
+            let Some(known) = told.iter().filter(|(rs, _)| *rs < op.call_seq).map(|(_, v)| *v).max() else { continue };
+            // first EXECUTE of this op on a node that speaks the extension (nodes 1 and 2)
+            let Some(first) = r.seen.get(&op.pk).and_then(|s| s.iter().find(|x| x.kind == "EXECUTE" && x.id == sel_id() && x.node != 0)) else { continue };
+            match first.presented_md.as_ref().map(|m| version_of_id(m)) {
+                Some(Some(p)) if p >= known => o.class("metadata-id:announced-id-presented(mixed-cluster)"),
+                other => o.violation(
+                    "c14:announced-metadata-id-not-presented",
+                    format!("{} of pk {} presented {:?} (version {other:?}) on a connection that speaks the metadata-id extension, although an earlier, already returned execution had been sent the id of version {known} together with its metadata", op.api, op.pk, first.presented_md.as_ref().map(|m| fw::hex(m))),
+                    json!({"history": replay_base, "pk": op.pk}),
+                ),
+            }
+        }
+    }
     // the next execution presents the latest announced metadata id (extension on, skip-metadata on)
-    if h.ext {
+    if h.ext && !h.mixed {
         // announcements: every ROWS answer encoded at version v to an op that has returned
         let mut returned: Vec<(u64, usize)> = Vec::new(); // (ret_seq, version the client must know afterwards)
         for op in &r.ops {
@@ -728,8 +769,9 @@ fn judge(o: &mut Outcome, h: &Hist, r: &HistOut) {
 fn gen_hist(rng: &mut Rng, seed: u64) -> Hist {
     let ext = rng.bool();
     let use_cached = rng.bool();
-    // without the extension the protocol gives no signal of a schema change while metadata is skipped
-    let schema_changes_allowed = ext || !use_cached;
+    let mixed = ext && rng.chance(1, 3);
+    // without the extension (on every node) the protocol gives no signal of a schema change while metadata is skipped
+    let schema_changes_allowed = (ext && !mixed) || !use_cached;
     let n = rng.usize(4, 18);
     let mut steps = Vec::new();
     let mut id_changed = false;
@@ -754,7 +796,7 @@ fn gen_hist(rng: &mut Rng, seed: u64) -> Hist {
         }
         steps.push(s);
     }
-    Hist { ext, use_cached, steps, endless_unprepared: false, seed }
+    Hist { mixed, ext, use_cached, steps, endless_unprepared: false, seed }
 }
 
 pub fn run(ctx: &Ctx) -> Outcome {
@@ -772,7 +814,7 @@ pub fn run(ctx: &Ctx) -> Outcome {
                 "Evict" => Step::Evict(arg), "EvictAll" => Step::EvictAll, "SchemaChange" => Step::SchemaChange, "IdChange" => Step::IdChange(arg), _ => Step::Join,
             }
         }).collect()).unwrap_or_default();
-        let h = Hist { ext: r["ext"].as_bool().unwrap_or(false), use_cached: r["use_cached"].as_bool().unwrap_or(false), steps, endless_unprepared: r["endless"].as_bool().unwrap_or(false), seed: 1 };
+        let h = Hist { mixed: r["mixed"].as_bool().unwrap_or(false), ext: r["ext"].as_bool().unwrap_or(false), use_cached: r["use_cached"].as_bool().unwrap_or(false), steps, endless_unprepared: r["endless"].as_bool().unwrap_or(false), seed: 1 };
         for _ in 0..5 {
             let ho = rt.block_on(run_hist(&h));
             judge(&mut out, &h, &ho);
@@ -785,7 +827,7 @@ pub fn run(ctx: &Ctx) -> Outcome {
     }
     // never-ending eviction: every EXECUTE/BATCH is answered UNPREPARED although PREPARE succeeds
     // (checked for faithfulness of the repeats only; termination is not part of the statement)
-    hists.push(Hist { ext: false, use_cached: false, steps: vec![Step::Exec, Step::Join], endless_unprepared: true, seed: 0 });
+    hists.push(Hist { mixed: false, ext: false, use_cached: false, steps: vec![Step::Exec, Step::Join], endless_unprepared: true, seed: 0 });
     for chunk in hists.chunks(10) {
         let res: Vec<(Hist, HistOut)> = rt.block_on(async {
             let mut js = Vec::new();
@@ -810,7 +852,7 @@ pub fn run(ctx: &Ctx) -> Outcome {
             break;
         }
     }
-    for c in ["ext:metadata-id", "ext:none", "skip-metadata:on", "skip-metadata:off", "step:Exec", "step:ExecPaged", "step:ExecCaching", "step:Batch", "batch:several-statements-named-unknown-in-turn", "step:Evict", "step:EvictAll",
+    for c in ["ext:metadata-id", "ext:metadata-id-on-two-of-three-nodes", "metadata-id:announced-id-presented(mixed-cluster)", "ext:none", "skip-metadata:on", "skip-metadata:off", "step:Exec", "step:ExecPaged", "step:ExecCaching", "step:Batch", "batch:several-statements-named-unknown-in-turn", "step:Evict", "step:EvictAll",
         "step:SchemaChange", "step:IdChange", "explicit-timestamp-checked", "reprepared-transparently", "rows-verified", "id-change:caller-got-error", "metadata-id:latest-presented"] {
         out.require_class(c);
     }
